@@ -484,7 +484,8 @@ Theorem squash_membership g u v au av fu fv mu mv : wf_graph g -> u <> v ->
   nattrs g u = Some au -> nattrs g v = Some av ->
   aget (S "fragid") au = Some (VList fu) -> aget (S "fragid") av = Some (VList fv) ->
   aget (S "mapping") au = Some (VList mu) -> aget (S "mapping") av = Some (VList mv) ->
-  forall sq a b bond, starts_squash bond = Ok true -> sq_get sq a = u -> sq_get sq b = v ->
+  forall sq a b bond, starts_squash bond = Ok true ->
+  sq_root (sq_fuel sq) sq a = Ok u -> sq_root (sq_fuel sq) sq b = Ok v ->
   exists g2, squash_step (g, sq) (a, b, bond) = Ok (g2, sq_set v u sq) /\
     node_keys g2 = filter (fun k => negb (Z.eqb k v)) (node_keys g) /\
     (forall y x, has_edge g2 y x = contracted_edge g u v y x) /\
@@ -496,7 +497,8 @@ Proof.
   intros W Huv Hu Hv Fu Fv Mu Mv sq a b bond Hb Ha Hbv.
   destruct (contracted_spec g u v au av W Huv Hu Hv) as (h & Hc & K & E & Nu & _ & No).
   destruct (store_get au v (attrs_to_pyval av)) as (c & Sc & Dc).
-  unfold squash_step. rewrite Hb. cbn [bind negb]. rewrite Ha, Hbv.
+  unfold squash_step. rewrite Hb. cbn [bind negb]. rewrite Ha, Hbv. cbn [bind].
+  replace (Z.eqb u v) with false by (symmetry; now apply Z.eqb_neq).
   change squash_self_loops with false. rewrite Hc. cbn [bind].
   change squash_concat_attrs with [S "fragid"; S "mapping"]. cbn [fold_res].
   set (A0 := aset (S "contraction") (store_contraction au (VInt v) (attrs_to_pyval av)) au) in *.
@@ -560,84 +562,227 @@ Proof.
   - destruct Hin as [->|Hin]; [contradiction|]. rewrite <- (IH Hl Hin). lia.
 Qed.
 
-Lemma squash_step_bang gi sq a b bond g2 sq2 : wf_graph gi -> starts_squash bond = Ok true ->
-  sq_get sq a <> sq_get sq b -> has_node gi (sq_get sq a) = true -> has_node gi (sq_get sq b) = true ->
-  squash_step (gi, sq) (a, b, bond) = Ok (g2, sq2) ->
-  wf_graph g2 /\ node_keys g2 = filter (fun k => negb (Z.eqb k (sq_get sq b))) (node_keys gi)
-  /\ sq2 = sq_set (sq_get sq b) (sq_get sq a) sq.
+Lemma existsb_eqb_In_ i l : existsb (Z.eqb i) l = true <-> In i l.
 Proof.
-  intros W Hb Hne Hk Hr H. unfold squash_step in H. rewrite Hb in H. cbn [bind negb] in H.
-  set (keep := sq_get sq a) in *. set (rm := sq_get sq b) in *.
+  rewrite existsb_exists. split; [intros (x & Hin & E); apply Z.eqb_eq in E; now subst|].
+  intros H. exists i. split; [assumption|apply Z.eqb_refl].
+Qed.
+
+(** ---- the `squashed` dict: chains only run forward, so the while loops terminate and equal one pass *)
+Definition sq_keys (sq : list (Z * Z)) : list Z := map fst sq.
+Definition sq_vals (sq : list (Z * Z)) : list Z := map snd sq.
+Fixpoint fwd (sq : list (Z * Z)) : Prop :=
+  match sq with
+  | [] => True
+  | (k, v) :: r => k <> v /\ ~ In k (sq_keys r) /\ ~ In k (sq_vals r) /\ fwd r
+  end.
+
+Lemma sq_find_cons k v r x : sq_find ((k, v) :: r) x = if Z.eqb k x then Some v else sq_find r x.
+Proof. unfold sq_find. cbn. destruct (Z.eqb k x); reflexivity. Qed.
+Lemma sq_find_vals r x w : sq_find r x = Some w -> In w (sq_vals r).
+Proof.
+  induction r as [|[k v] r IH]; [discriminate|]. rewrite sq_find_cons. destruct (Z.eqb k x).
+  - intros H. inversion H. now left.
+  - intros H. right. auto.
+Qed.
+Lemma sq_root_skip k v r : ~ In k (sq_vals r) -> forall f y, y <> k -> sq_root f ((k, v) :: r) y = sq_root f r y.
+Proof.
+  intros Hv. induction f as [|f IH]; intros y Hy; [reflexivity|]. cbn [sq_root]. rewrite sq_find_cons.
+  replace (Z.eqb k y) with false by (symmetry; apply Z.eqb_neq; congruence).
+  destruct (sq_find r y) as [w|] eqn:E; [|reflexivity]. apply IH. intro X. subst. apply Hv. eapply sq_find_vals; eauto.
+Qed.
+Lemma pass_cons k v r x : sq_pass ((k, v) :: r) x = sq_pass r (if Z.eqb x k then v else x).
+Proof. reflexivity. Qed.
+(** the faithful loop (with fuel) computes the one-pass root on every forward dict: it never runs out of fuel *)
+Lemma sq_root_pass sq : fwd sq -> forall f x, (length sq < f)%nat -> sq_root f sq x = Ok (sq_pass sq x).
+Proof.
+  induction sq as [|[k v] r IH]; intros F f x Hf.
+  - destruct f; [inversion Hf|]. reflexivity.
+  - destruct F as (Hkv & Hk & Hv & Fr). rewrite pass_cons. cbn [length] in Hf.
+    destruct (Z.eqb_spec x k) as [->|N].
+    + destruct f; [inversion Hf|]. cbn [sq_root]. rewrite sq_find_cons, Z.eqb_refl.
+      rewrite sq_root_skip by (auto; congruence). apply IH; [assumption|lia].
+    + rewrite sq_root_skip by assumption. apply IH; [assumption|lia].
+Qed.
+Lemma pass_id_or_val r : forall y, sq_pass r y = y \/ In (sq_pass r y) (sq_vals r).
+Proof.
+  induction r as [|[k v] r IH]; intros y; [now left|]. rewrite pass_cons.
+  destruct (Z.eqb y k).
+  - right. destruct (IH v) as [->|H]; [now left|now right].
+  - destruct (IH y) as [->|H]; [now left|right; now right].
+Qed.
+Lemma pass_not_key sq : fwd sq -> forall x, ~ In (sq_pass sq x) (sq_keys sq).
+Proof.
+  induction sq as [|[k v] r IH]; intros F x; [intros []|]. destruct F as (Hkv & Hk & Hv & Fr).
+  rewrite pass_cons. intros [E|H]; [|exact (IH Fr _ H)]. cbn [fst] in E.
+  destruct (Z.eqb x k) eqn:Ex.
+  - destruct (pass_id_or_val r v) as [X|X]; [congruence|]. rewrite <- E in X. contradiction.
+  - apply Z.eqb_neq in Ex. destruct (pass_id_or_val r x) as [X|X]; [congruence|]. rewrite <- E in X. contradiction.
+Qed.
+Lemma pass_pred (P : Z -> Prop) sq : (forall kv, In kv sq -> P (snd kv)) -> forall x, P x -> P (sq_pass sq x).
+Proof.
+  induction sq as [|[k v] r IH]; intros H x Px; [assumption|]. rewrite pass_cons.
+  apply IH; [intros kv Hin; apply H; now right|]. destruct (Z.eqb x k); [apply (H (k, v)); now left|assumption].
+Qed.
+Lemma fwd_snoc sq rm keep : fwd sq -> rm <> keep -> ~ In rm (sq_keys sq) -> ~ In keep (sq_keys sq) ->
+  fwd (sq ++ [(rm, keep)]).
+Proof.
+  induction sq as [|[k v] r IH]; intros F Hne Hr Hk.
+  - cbn. repeat split; auto.
+  - destruct F as (Hkv & Hkk & Hkv' & Fr). cbn [app fwd]. unfold sq_keys, sq_vals in *. cbn [map fst] in Hr, Hk.
+    repeat split.
+    + assumption.
+    + rewrite map_app. intro X. apply in_app_or in X as [X|[X|[]]]; [contradiction|]. cbn in X. apply Hr. now left.
+    + rewrite map_app. intro X. apply in_app_or in X as [X|[X|[]]]; [contradiction|]. cbn in X. apply Hk. now left.
+    + apply IH; [assumption|assumption|intro X; apply Hr; now right|intro X; apply Hk; now right].
+Qed.
+Lemma sq_set_fresh rm keep sq : ~ In rm (sq_keys sq) -> sq_set rm keep sq = sq ++ [(rm, keep)].
+Proof.
+  induction sq as [|[k v] r IH]; intros H; [reflexivity|]. cbn.
+  destruct (Z.eqb_spec rm k) as [->|N]; [exfalso; apply H; now left|]. rewrite IH; [reflexivity|].
+  intro X. apply H. now right.
+Qed.
+Lemma zmem_In x l : zmem x l = true <-> In x l.
+Proof. apply existsb_eqb_In_. Qed.
+
+Lemma squash_merge gi keep rm g2 : wf_graph gi -> keep <> rm ->
+  has_node gi keep = true -> has_node gi rm = true ->
+  (g1 <- contracted squash_self_loops gi keep rm ;; fold_res (concat_attr keep rm) squash_concat_attrs g1) = Ok g2 ->
+  wf_graph g2 /\ node_keys g2 = filter (fun k => negb (Z.eqb k rm)) (node_keys gi).
+Proof.
+  intros W Hne Hk Hr H.
   assert (exists au, nattrs gi keep = Some au) as [au Hu]
     by (apply has_node_gfind in Hk as [n Hn]; unfold nattrs; rewrite Hn; cbn; eauto).
   assert (exists av, nattrs gi rm = Some av) as [av Hv]
     by (apply has_node_gfind in Hr as [n Hn]; unfold nattrs; rewrite Hn; cbn; eauto).
   destruct (contracted_spec gi keep rm au av W Hne Hu Hv) as (h & Hc & K & E & _).
   change squash_self_loops with false in H. rewrite Hc in H. cbn [bind] in H.
-  destruct (fold_res (concat_attr keep rm) squash_concat_attrs h) as [g2'|] eqn:F; cbn [bind] in H; [|discriminate].
-  inversion H; subst g2' sq2. clear H.
-  destruct (concat_fold_shape _ _ _ _ _ F) as [K2 E2].
+  destruct (concat_fold_shape _ _ _ _ _ H) as [K2 E2].
   pose proof (wf_contracted gi keep rm h W Hne Hk Hr K E) as Wh.
-  split; [exact (wf_transfer h g2 K2 E2 Wh)|]. split; [congruence|reflexivity].
+  split; [exact (wf_transfer h g2 K2 E2 Wh)|congruence].
 Qed.
 
 Definition bangs (l : list (Z * Z * pyval)) : list (Z * Z) :=
   map (fun e => (fst (fst e), snd (fst e))) (filter item_is_bang l).
 
-Lemma squash_fold_count alive l : forall gi sq dead g' sq',
-  wf_graph gi -> (forall k, has_node gi k = zmem k alive && negb (zmem k dead)) ->
-  squash_safe alive sq dead (bangs l) = true ->
+Lemma squash_fold_count alive l : forall gi sq g' sq',
+  wf_graph gi -> fwd sq ->
+  (forall k, has_node gi k = zmem k alive && negb (zmem k (sq_keys sq))) ->
+  (forall kv, In kv sq -> zmem (snd kv) alive = true) ->
+  (forall e, In e l -> zmem (fst (fst e)) alive = true /\ zmem (snd (fst e)) alive = true) ->
   fold_res squash_step l (gi, sq) = Ok (g', sq') ->
-  wf_graph g' /\ (length (node_keys g') + length (bangs l) = length (node_keys gi))%nat.
+  wf_graph g' /\ (length (node_keys g') + length (squash_plan sq (bangs l)) = length (node_keys gi))%nat.
 Proof.
-  induction l as [|[[a b] bond] l IH]; intros gi sq dead g' sq' W Hal Hs H.
+  induction l as [|[[a b] bond] l IH]; intros gi sq g' sq' W F Hal Hv Hl H.
   - cbn in H. inversion H; subst. cbn. split; [assumption|lia].
   - cbn [fold_res] in H.
     assert (Eb : bangs ((a, b, bond) :: l) =
                  match starts_squash bond with Ok true => (a, b) :: bangs l | _ => bangs l end).
     { unfold bangs. cbn [filter]. unfold item_is_bang at 1. cbn [snd].
       destruct (starts_squash bond) as [[|]|]; reflexivity. }
-    rewrite Eb in *. clear Eb.
-    destruct (starts_squash bond) as [[|]|] eqn:Hb.
+    rewrite Eb. clear Eb.
+    assert (Hl' : forall e, In e l -> zmem (fst (fst e)) alive = true /\ zmem (snd (fst e)) alive = true)
+      by (intros e He; apply Hl; now right).
+    destruct (Hl (a, b, bond) (or_introl eq_refl)) as [Aa Ab]. cbn [fst snd] in Aa, Ab.
+    unfold squash_step at 1 in H.
+    destruct (starts_squash bond) as [[|]|] eqn:Hb; cbn [bind negb] in H.
     + (* a `!` pair *)
-      cbn [map fst snd squash_safe length] in *.
-      set (keep := sq_get sq a) in *. set (rm := sq_get sq b) in *.
-      repeat (apply andb_true_iff in Hs as [Hs ?]).
-      destruct (squash_step (gi, sq) (a, b, bond)) as [[g2 sq2]|] eqn:St; cbn [bind] in H; [|discriminate].
-      assert (Hne : keep <> rm) by (apply Z.eqb_neq; now apply negb_true_iff).
-      assert (Hk : has_node gi keep = true) by (rewrite Hal, Hs; cbn; assumption).
-      assert (Hr : has_node gi rm = true) by (rewrite Hal; apply andb_true_iff; split; assumption).
-      destruct (squash_step_bang gi sq a b bond g2 sq2 W Hb Hne Hk Hr St) as (W2 & K2 & ->).
-      destruct (IH g2 (sq_set rm keep sq) (rm :: dead) g' sq' W2) as [Wg Len]; [|assumption|exact H|].
-      * intros k. apply Bool.eq_iff_eq_true.
-        rewrite has_node_keys, K2, filter_In, <- has_node_keys, Hal. cbn [zmem existsb].
-        fold (zmem k dead). rewrite negb_orb, !andb_true_iff, !negb_true_iff. tauto.
-      * split; [exact Wg|]. rewrite K2 in Len.
-        pose proof (filter_remove_one (node_keys gi) rm (wf_nodup _ W) (proj1 (has_node_keys _ _) Hr)) as FR.
-        cbn [length]. fold rm in Len. lia.
-    + (* an edge with another kind of descriptor pair *)
-      unfold squash_step in H. rewrite Hb in H. cbn [bind negb] in H. exact (IH gi sq dead g' sq' W Hal Hs H).
-    + unfold squash_step in H. rewrite Hb in H. cbn [bind] in H. discriminate.
+      rewrite !(sq_root_pass sq F) in H by (unfold sq_fuel; lia). cbn [bind] in H.
+      cbn [squash_plan].
+      set (keep := sq_pass sq a) in *. set (rm := sq_pass sq b) in *.
+      assert (Ak : zmem keep alive = true) by (apply (pass_pred (fun z => zmem z alive = true)); assumption).
+      assert (Ar : zmem rm alive = true) by (apply (pass_pred (fun z => zmem z alive = true)); assumption).
+      assert (Nk : zmem keep (sq_keys sq) = false)
+        by (apply not_true_iff_false; rewrite zmem_In; apply pass_not_key; assumption).
+      assert (Nr : zmem rm (sq_keys sq) = false)
+        by (apply not_true_iff_false; rewrite zmem_In; apply pass_not_key; assumption).
+      destruct (Z.eqb_spec keep rm) as [E|Hne].
+      * (* redundant pair: skipped *) exact (IH gi sq g' sq' W F Hal Hv Hl' H).
+      * destruct (g1 <- contracted squash_self_loops gi keep rm ;;
+                  fold_res (concat_attr keep rm) squash_concat_attrs g1) as [g2|] eqn:St.
+        2:{ destruct (contracted squash_self_loops gi keep rm); cbn [bind] in St, H; [rewrite St in H|]; discriminate. }
+        assert (H2 : fold_res squash_step l (g2, sq_set rm keep sq) = Ok (g', sq')).
+        { destruct (contracted squash_self_loops gi keep rm) as [g1|]; cbn [bind] in St, H; [|discriminate].
+          rewrite St in H. exact H. }
+        assert (Hk : has_node gi keep = true) by (rewrite Hal, Ak, Nk; reflexivity).
+        assert (Hr : has_node gi rm = true) by (rewrite Hal, Ar, Nr; reflexivity).
+        destruct (squash_merge gi keep rm g2 W Hne Hk Hr St) as [W2 K2].
+        assert (Fr : ~ In rm (sq_keys sq)) by (rewrite <- zmem_In, Nr; discriminate).
+        assert (Fk : ~ In keep (sq_keys sq)) by (rewrite <- zmem_In, Nk; discriminate).
+        rewrite (sq_set_fresh rm keep sq Fr) in H2.
+        destruct (IH g2 (sq ++ [(rm, keep)]) g' sq' W2) as [Wg Len]; try assumption.
+        -- apply fwd_snoc; auto.
+        -- intros k. apply Bool.eq_iff_eq_true.
+           rewrite has_node_keys, K2, filter_In, <- has_node_keys, Hal. unfold sq_keys. rewrite map_app. cbn [map fst].
+           unfold zmem. rewrite existsb_app. cbn [existsb]. fold (zmem k (map fst sq)). fold (sq_keys sq).
+           rewrite orb_false_r, negb_orb, !andb_true_iff, !negb_true_iff. tauto.
+        -- intros kv Hin. apply in_app_or in Hin as [Hin|[<-|[]]]; [auto|exact Ak].
+        -- split; [exact Wg|]. rewrite K2 in Len. cbn [length].
+           pose proof (filter_remove_one (node_keys gi) rm (wf_nodup _ W) (proj1 (has_node_keys _ _) Hr)) as FR. lia.
+    + exact (IH gi sq g' sq' W F Hal Hv Hl' H).
+    + discriminate.
 Qed.
 
-(** [squash_count]: when the bookkeeping of the `!` pairs is [squash_safe] (the pairs form a forest over
-    atoms and no kept atom is removed before it is looked up again) and squash_atoms returns, the fine
-    graph has exactly ONE NODE FEWER PER `!` PAIR, and it is again a well-formed simple graph. *)
-Theorem squash_count g g' : wf_graph g ->
-  squash_safe (node_keys g) [] [] (bang_items g) = true -> squash_atoms g = Ok g' ->
-  wf_graph g' /\ (length g' + length (bang_items g) = length g)%nat.
+(** the items squash_atoms iterates over are edges of the graph: both ends are nodes *)
+Lemma gfind_of_In g n : NoDup (node_keys g) -> In n g -> gfind (nk n) g = Some n.
 Proof.
-  intros W Hs H. unfold squash_atoms in H.
-  destruct (fold_res squash_step (edge_attr_items g squash_edge_attr) (g, [])) as [[g2 sq2]|] eqn:F; cbn [bind fst] in H; [|discriminate].
+  induction g as [|m r IH]; intros Hnd Hn; [contradiction|]. cbn. inversion Hnd; subst.
+  destruct Hn as [->|Hn]; [now rewrite Z.eqb_refl|].
+  destruct (Z.eqb (nk m) (nk n)) eqn:E; [|auto].
+  apply Z.eqb_eq in E. exfalso. apply H1. rewrite E. unfold node_keys. now apply in_map.
+Qed.
+Lemma edges_from_In g : forall seen u v d, In (u, v, d) (edges_from g seen) ->
+  exists n, In n g /\ nk n = u /\ In (v, d) (nadj n).
+Proof.
+  induction g as [|n r IH]; intros seen u v d H; [contradiction|]. cbn [edges_from] in H.
+  apply in_app_or in H as [H|H].
+  - apply in_flat_map in H as ([w a] & Hin & Hx). cbn [fst snd] in Hx.
+    destruct (existsb (Z.eqb w) seen); [contradiction|]. destruct Hx as [Hx|[]]. inversion Hx; subst.
+    exists n. repeat split; [now left|assumption].
+  - destruct (IH _ _ _ _ H) as (m & Hm & X). exists m. split; [now right|assumption].
+Qed.
+Lemma In_adj_get x a l : In (x, a) l -> exists b, adj_get x l = Some b.
+Proof.
+  induction l as [|[w c] l IH]; [contradiction|]. cbn. intros [H|H].
+  - inversion H; subst. rewrite Z.eqb_refl. eauto.
+  - destruct (Z.eqb w x); eauto.
+Qed.
+Lemma items_are_edges g name e : wf_graph g -> In e (edge_attr_items g name) ->
+  has_node g (fst (fst e)) = true /\ has_node g (snd (fst e)) = true.
+Proof.
+  intros [Hnd Hcl _ _] H. unfold edge_attr_items in H. apply in_flat_map in H as ([[u v] d] & Hin & Hx).
+  cbn [fst snd] in Hx. destruct (aget name d); [|contradiction]. destruct Hx as [<-|[]]. cbn [fst snd].
+  destruct (edges_from_In _ _ _ _ _ Hin) as (n & Hn & <- & Hadj).
+  pose proof (gfind_of_In g n Hnd Hn) as G.
+  assert (E : has_edge g (nk n) v = true).
+  { unfold has_edge. rewrite G. destruct (In_adj_get _ _ _ Hadj) as [b ->]. reflexivity. }
+  split; [apply has_node_gfind; eauto|exact (Hcl _ _ E)].
+Qed.
+
+(** [squash_count]: for EVERY well-formed molecule graph on which squash_atoms returns, the fine graph has
+    exactly one node fewer per merge of the plan — one per `!` pair, except pairs whose two ends have already
+    become one atom (redundant pairs are skipped) — and it is again a well-formed simple graph.  No
+    hypothesis on the shape or order of the pairs is needed any more (repaired code: root-following
+    lookups are total, proved through [sq_root_pass]). *)
+Theorem squash_count g g' : wf_graph g -> squash_atoms g = Ok g' ->
+  wf_graph g' /\ (length g' + length (squash_plan [] (bang_items g)) = length g)%nat.
+Proof.
+  intros W H. unfold squash_atoms in H.
+  destruct (fold_res squash_step (edge_attr_items g squash_edge_attr) (g, [])) as [[g2 sq2]|] eqn:Fd; cbn [bind fst] in H; [|discriminate].
   inversion H; subst g2. clear H.
-  destruct (squash_fold_count (node_keys g) (edge_attr_items g squash_edge_attr) g [] [] g' sq2 W) as [Wg Len];
-    [|exact Hs|exact F|].
-  - intros k. cbn. rewrite andb_true_r. destruct (has_node g k) eqn:E.
-    + apply has_node_keys in E. symmetry. apply existsb_exists. exists k. split; [assumption|apply Z.eqb_refl].
-    + symmetry. apply not_true_iff_false. intro T. apply existsb_exists in T as (x & Hx & Ex).
-      apply Z.eqb_eq in Ex. subst x. apply has_node_keys in Hx. congruence.
+  assert (Hal : forall k, has_node g k = zmem k (node_keys g) && negb (zmem k (sq_keys []))).
+  { intros k. cbn. rewrite andb_true_r. apply Bool.eq_iff_eq_true. rewrite has_node_keys, zmem_In. tauto. }
+  destruct (squash_fold_count (node_keys g) (edge_attr_items g squash_edge_attr) g [] g' sq2 W I Hal) as [Wg Len];
+    [intros kv []| |exact Fd|].
+  - intros e He. destruct (items_are_edges g _ e W He) as [A B].
+    rewrite !zmem_In, <- !has_node_keys. auto.
   - split; [exact Wg|]. unfold node_keys in Len. rewrite !map_length in Len. exact Len.
 Qed.
+(** … in particular one node fewer per `!` pair when no pair is redundant (the pairs form a forest over atoms) *)
+Corollary squash_count_per_pair g g' : wf_graph g -> squash_atoms g = Ok g' ->
+  length (squash_plan [] (bang_items g)) = length (bang_items g) ->
+  (length g' + length (bang_items g) = length g)%nat.
+Proof. intros W H E. destruct (squash_count g g' W H) as [_ L]. rewrite E in L. exact L. Qed.
 
 (** ------------------------------------------------------------ a decidable sufficient test for wf_graph *)
 Fixpoint nodupz (l : list Z) : bool :=
@@ -699,8 +844,7 @@ Definition g_chain : graph :=
    atom_ 4 (S "O") false (VInt 0) 2 [(3, single_); (5, dollar_)];
    atom_ 5 (S "C") false (VInt 2) 3 [(4, dollar_)]].
 Example squash_count_nonvacuous :
-  wf_graph g_chain /\ squash_safe (node_keys g_chain) [] [] (bang_items g_chain) = true /\
-  length (bang_items g_chain) = 2%nat /\
+  wf_graph g_chain /\ length (bang_items g_chain) = 2%nat /\ length (squash_plan [] (bang_items g_chain)) = 2%nat /\
   exists g', squash_atoms g_chain = Ok g' /\ length g' = 4%nat /\
              node_get g' 1 (S "fragid") = Some (VList [VInt 0; VInt 1; VInt 2]) /\
              neighbors g' 1 = [0; 4].
@@ -709,31 +853,42 @@ Proof.
   split; [vm_compute; reflexivity|]. eexists. split; [vm_compute; reflexivity|]. repeat split.
 Qed.
 
-(** REFUTED (class redundant-squash-cycle): three copies of one atom, every two joined by a `!` pair *)
+(** formerly REFUTED (class redundant-squash-cycle, repaired by /repo 03eb080): three copies of one atom,
+    every two joined by a `!` pair.  Now: two merges, the third pair is skipped, one atom with three
+    memberships remains. *)
 Definition g_triangle : graph :=
   [atom_ 0 (S "C") false (VInt 2) 0 [(1, bang_ (VInt 1)); (2, bang_ (VInt 1))];
    atom_ 1 (S "C") false (VInt 2) 1 [(0, bang_ (VInt 1)); (2, bang_ (VInt 1))];
    atom_ 2 (S "C") false (VInt 2) 2 [(0, bang_ (VInt 1)); (1, bang_ (VInt 1))]].
-Lemma refuted_redundant_cycle :
-  wf_graph g_triangle /\ squash_atoms g_triangle = Err EKey /\
-  squash_safe (node_keys g_triangle) [] [] (bang_items g_triangle) = false.
-Proof. split; [apply wf_graphb_sound; vm_compute; reflexivity|]. split; vm_compute; reflexivity. Qed.
+Example triangle_resolves :
+  wf_graph g_triangle /\ length (bang_items g_triangle) = 3%nat /\ squash_plan [] (bang_items g_triangle) = [(0, 1); (0, 2)] /\
+  exists g', squash_atoms g_triangle = Ok g' /\ length g' = 1%nat /\
+             node_get g' 0 (S "fragid") = Some (VList [VInt 0; VInt 1; VInt 2]) /\ neighbors g' 0 = [].
+Proof.
+  split; [apply wf_graphb_sound; vm_compute; reflexivity|]. split; [reflexivity|]. split; [vm_compute; reflexivity|].
+  eexists. split; [vm_compute; reflexivity|]. repeat split.
+Qed.
 
-(** REFUTED (class stale-squashed-entry): the hub atom 2 is shared with 0, 1 and 3; its pairs come in the
-    order (0,2) (1,2) (2,3): 0 is kept, then merged into 1, then looked up again *)
+(** formerly REFUTED (class stale-squashed-entry, repaired by /repo 03eb080): the hub atom 2 is shared with
+    0, 1 and 3; its pairs come in the order (0,2) (1,2) (2,3): 0 is kept, then merged into 1, and the third
+    pair now follows 2 -> 0 -> 1 *)
 Definition g_stale : graph :=
   [atom_ 0 (S "C") false (VInt 2) 0 [(2, bang_ (VInt 1))];
    atom_ 1 (S "C") false (VInt 2) 1 [(2, bang_ (VInt 1))];
    atom_ 2 (S "C") false (VInt 0) 2 [(0, bang_ (VInt 1)); (1, bang_ (VInt 1)); (3, bang_ (VInt 1))];
    atom_ 3 (S "C") false (VInt 2) 3 [(2, bang_ (VInt 1)); (4, single_)];
    atom_ 4 (S "O") false (VInt 1) 3 [(3, single_)]].
-Lemma refuted_stale_entry :
-  wf_graph g_stale /\ squash_atoms g_stale = Err EKey /\
-  squash_safe (node_keys g_stale) [] [] (bang_items g_stale) = false.
-Proof. split; [apply wf_graphb_sound; vm_compute; reflexivity|]. split; vm_compute; reflexivity. Qed.
+Example stale_entry_resolves :
+  wf_graph g_stale /\ squash_plan [] (bang_items g_stale) = [(0, 2); (1, 0); (1, 3)] /\
+  exists g', squash_atoms g_stale = Ok g' /\ length g' = 2%nat /\
+             node_get g' 1 (S "fragid") = Some (VList [VInt 1; VInt 0; VInt 2; VInt 3]) /\ neighbors g' 1 = [4].
+Proof.
+  split; [apply wf_graphb_sound; vm_compute; reflexivity|]. split; [vm_compute; reflexivity|].
+  eexists. split; [vm_compute; reflexivity|]. repeat split.
+Qed.
 
 (** REFUTED (class stale-hcount-aromatic): toluene with the ring atom shared, the methyl fragment first.
-    The bookkeeping is safe and squash_atoms returns, but the kept copy 0 still carries the hydrogen
+    squash_atoms returns, but the kept copy 0 still carries the hydrogen
     count 1.5 of its own fragment although it now has three ring/methyl bonds: bonds + hcount exceed the
     valence, which is what pysmiles' aromaticity correction reads next. *)
 From CGV Require Hydro.HydroCheck Hydro.SquashCheck.
@@ -747,11 +902,11 @@ Definition g_toluene : graph :=
    atom_ 6 (S "C") true (VInt 1) 1 [(5, arom_); (7, arom_)];
    atom_ 7 (S "C") true (VInt 0) 1 [(6, arom_); (2, arom_); (0, bang_ (VFlt (S "1.5")))]].
 Lemma refuted_stale_hcount :
-  wf_graph g_toluene /\ squash_safe (node_keys g_toluene) [] [] (bang_items g_toluene) = true /\
+  wf_graph g_toluene /\
   exists g', squash_atoms g_toluene = Ok g' /\
              SquashCheck.stale_hcount_aromatic (observe g') = true /\
              node_get g' 0 (S "hcount") = Some (VFlt (S "1.5")) /\ bonds_half g' 0 = Ok 8.
 Proof.
-  split; [apply wf_graphb_sound; vm_compute; reflexivity|]. split; [vm_compute; reflexivity|].
+  split; [apply wf_graphb_sound; vm_compute; reflexivity|].
   eexists. split; [vm_compute; reflexivity|]. repeat split.
 Qed.
